@@ -327,8 +327,7 @@ def main():
     rng = scen.Rng(args["seed"] + 31)
     n = (200 if args["tier"] == "thorough" else 16) * args["budget"]
     seeds += [rng.next() for _ in range(n)]
-    with ThreadPoolExecutor(max_workers=8) as ex:
-        list(ex.map(lambda s: Walk(s, prop, model, rep).go(), seeds))
+    scen.run_cases(lambda s: Walk(s, prop, model, rep).go(), seeds, rep, 8)
     j = rep.to_json()
     merged = dict(base)
     merged["evaluations"] = base["evaluations"] + j["evaluations"]
